@@ -1132,7 +1132,7 @@ Inductive recv_pairs : list Z -> list (Z * Z) -> list Z -> Prop :=
 
 Lemma recv_pairs_ok_sound : forall n l t, length l <= n -> recv_pairs_ok l = Some t ->
   exists ps, recv_pairs l ps t /\
-    Forall (fun p => (fst p = 1%Z -> snd p = 1%Z) /\ (fst p <> 1%Z -> fst p = 0%Z /\ snd p <> 1%Z)) ps.
+    Forall (fun p => (fst p = 1%Z -> snd p <> 0%Z) /\ (fst p <> 1%Z -> fst p = 0%Z /\ snd p = 0%Z)) ps.
 Proof.
   induction n; intros l t Hl H.
   - destruct l; [discriminate | simpl in Hl; lia].
@@ -1144,17 +1144,17 @@ Proof.
       destruct (IHn l' t) as [ps [A B]]; [simpl in Hl; lia | exact H |].
       exists ((d, code) :: ps). split; [constructor; auto|]. constructor; auto. simpl.
       destruct (Z.eqb_spec d 1).
-      * apply Z.eqb_eq in Cnd. split; [auto | contradiction].
-      * apply andb_prop in Cnd. destruct Cnd as [C1 C2]. apply Z.eqb_eq in C1.
+      * split; [|contradiction]. intros _.
+        apply orb_prop in Cnd. destruct Cnd as [C2|C2]; apply Z.eqb_eq in C2; lia.
+      * apply andb_prop in Cnd. destruct Cnd as [C1 C2]. apply Z.eqb_eq in C1. apply Z.eqb_eq in C2.
         split; [contradiction|]. intros _. split; auto.
-        apply orb_prop in C2. destruct C2 as [C2|C2]; apply Z.eqb_eq in C2; lia.
 Qed.
 
 Record recv_meaning (out : list Z) : Prop := mkRM {
   rm_shape : exists ops ps rd acked eofz total,
       recv_pairs (tl out) ps [rd; 1%Z; 0%Z; 1%Z; acked; 1%Z; eofz; total] /\ out = ops :: tl out /\
-      (* every replayed (space, packet number) was refused as Duplicate and no fresh one was *)
-      Forall (fun p => (fst p = 1%Z -> snd p = 1%Z) /\ (fst p <> 1%Z -> fst p = 0%Z /\ snd p <> 1%Z)) ps /\
+      (* every replayed (space, packet number) was refused and every fresh one accepted *)
+      Forall (fun p => (fst p = 1%Z -> snd p <> 0%Z) /\ (fst p <> 1%Z -> fst p = 0%Z /\ snd p = 0%Z)) ps /\
       (* correct = 1, duplicates changed nothing, ACK ranges within the accepted numbers, MAX_DATA monotone *)
       (0 <= rd <= total)%Z /\ (eofz = 1%Z -> rd = total)
 }.
